@@ -566,6 +566,41 @@ class Mismatch(Base):
             yield check_one(env, 'var', op, list(a), list(right))
 
 
+class OneItem(Sub):
+    name = 'c06.one_item'
+    rule = ('a one-item array {a} against every array of 2..3 items over a 5-value pool, + and * in both orders (host lists and '
+            'literals): x+y and y+x, x*y and y*x give the same outcome (commutativity; whether a one-item array broadcasts or is a '
+            'length mismatch is not fixed, but it cannot depend on the side); non-trivial = all')
+    min_cases = 20
+    min_nontrivial = 100
+    POOL = [2, 0.5, -3, 'abc', None]
+
+    def cases(self, tier, unit):
+        for a in range(len(self.POOL)):
+            for n in (2, 3):
+                yield [a, n]
+
+    def check(self, env, case):
+        ai, n = case
+        a = self.POOL[ai]
+        out = []
+        for items in itertools.product(self.POOL[:4], repeat=n):
+            for op in ('+', '*'):
+                env.nt()
+                forms = [({'xa': [a], 'xb': list(items)}, 'xa%sxb' % op, 'xb%sxa' % op)]
+                if a is not None:
+                    la, lb = '{%s}' % lit(a), '{%s}' % ','.join(lit(v) for v in items)
+                    forms.append((None, la + op + lb, lb + op + la))
+                for vars_, f1, f2 in forms:
+                    o1, o2 = env.evo(f1, vars_), env.evo(f2, vars_)
+                    if o1 != o2:
+                        out.append(fail('%s = %r but %s = %r%s (%s is commutative)' % (
+                            f1, o1, f2, o2, (' with xa = %r, xb = %r' % ([a], list(items))) if vars_ else '', op), o2, o1))
+                        if len(out) >= 4:
+                            return out
+        return out
+
+
 class Nested(Base):
     name = 'c06.nested'
     rule = ('every 2x2 nested array over 3 [quick] / 4 [thorough] element values x {+,-,*,/} against: 9 scalars '
@@ -936,5 +971,5 @@ class ArrayScale(Sub):
         return out
 
 
-SUBS = [ScalarPairs(), ArrayScalar(), ArrayArray(), Mismatch(), Nested(), LiteralArrays(), Concat(), EarlyDates(),
+SUBS = [ScalarPairs(), ArrayScalar(), ArrayArray(), Mismatch(), OneItem(), Nested(), LiteralArrays(), Concat(), EarlyDates(),
         ExactIntegers(), ArrayReuse(), ArrayScale()]
